@@ -150,7 +150,7 @@ theorem cellTriangles_spec (isConvex : List Pt → Bool) (isEar : List Pt → Na
           · cases j with
             | zero =>
               simp only [List.getElem?_cons_zero, Nat.add_zero]
-              refine ⟨ts, rfl, ?_⟩
+              refine ⟨ts, hcell, ?_⟩
               rw [List.filter_append, List.map_append, filter_tag_same,
                 filter_none_of_forall (fun kt hkt => by have := hr kt hkt; omega)]
               simp
